@@ -167,6 +167,8 @@ def build_source(case):
     an = case.get('attr', 'x')
     if elk == 'mixed':
         parts.append('⟦x=%s⟧' % var(sx, 'x', '∅'))
+        # some elements have an x, others do not
+        parts.append('⟦svx=%s⟧' % var(sx, 'sequence-var-x', '∅'))
     if has_x:
         parts.append('⟦var-x=%s⟧' % var(sx, 'sequence-var-' + an))
         parts.append('⟦first-x=%s⟧' % boolean(sx, 'first-' + an))
@@ -321,6 +323,10 @@ def expected(case):
             e = sv.element(i)
             row['x'] = shown(e.x) if isinstance(e, (El, StrEl, Pt)) and \
                 not opts.get('no_push_item') else 'OUTERX'
+            if not isinstance(e, Pt):
+                # (whether a record of two fields counts as a pair here is
+                # not something the statement says)
+                row['svx'] = shown(e.x) if hasattr(e, 'x') else '∅'
         p = opts.get('prefix')
         if p:
             for n in VALUED:
